@@ -26,9 +26,9 @@ def q_exact(c, s):
     return sum(a * b for a, b in zip(g, sv)) + Fr(1, 2) * sum(a * b for a, b in zip(sv, Hs))
 
 
-def cauchy_reference(c):
-    """projected-gradient Cauchy step of the bound-constrained trust-region problem: from the origin along -g on
-    the variables not blocked by an active bound, up to the trust region, the first bound or the minimiser along the ray"""
+def cauchy_ray_reference(c):
+    """Cauchy step along the projected gradient: from the origin along -g on the variables not blocked by an active
+    bound, up to the trust region, the first bound or the minimiser along the ray"""
     g, H = c["g"], c["H"]
     xl, xu = np.minimum(c["xl"], 0.0), np.maximum(c["xu"], 0.0)
     free = ((xl < 0) | (g < 0)) & ((xu > 0) | (g > 0))
@@ -50,21 +50,95 @@ def cauchy_reference(c):
     return max(alpha, 0.0) * d * (1.0 - 1e-9)
 
 
+def tiny_gradient(c):
+    """the solver's own exit test at its first iteration: |projected gradient|^2 <= 10 eps n max(1, |projected gradient|)"""
+    g = c["g"]
+    xl, xu = np.minimum(c["xl"], 0.0), np.maximum(c["xu"], 0.0)
+    free = ((xl < 0) | (g < 0)) & ((xu > 0) | (g > 0))
+    gf = np.where(free, g, 0.0)
+    return bool(float(gf @ gf) <= 10.0 * EPS * c["n"] * max(1.0, float(np.linalg.norm(gf))))
+
+
+PATH_FRACTION = 0.8
+
+
+def cauchy_reference(c):
+    """projected-gradient Cauchy point of the bound-constrained trust-region problem: the first local minimiser of the
+    model along the projected steepest-descent path t -> clip(-t g, xl, xu) inside the trust region (the path bends
+    each time a bound is reached and continues in the remaining variables)"""
+    g, H = c["g"], c["H"]
+    n = len(g)
+    xl, xu = np.minimum(c["xl"], 0.0), np.maximum(c["xu"], 0.0)
+    d = -g.astype(float)
+    with np.errstate(divide="ignore", invalid="ignore"):
+        tb = np.where(d > 0, xu / d, np.where(d < 0, xl / d, np.inf))
+    tb = np.where(np.isnan(tb), np.inf, tb)
+    free = (d != 0.0) & (tb > 0.0)
+    s = np.zeros(n)
+    t0 = 0.0
+    bps = sorted(set(float(t) for t in tb[free & np.isfinite(tb)]))
+    for t1 in bps + [np.inf]:
+        dd = np.where(free & (tb >= t1), d, 0.0)
+        if not np.any(dd):
+            break
+        slope = float((g + H @ s) @ dd)
+        curv = float(dd @ H @ dd)
+        if slope >= 0.0:
+            break
+        sdd, ddsq = float(s @ dd), float(dd @ dd)
+        disc = sdd ** 2 + ddsq * (c["delta"] ** 2 - float(s @ s))
+        tau_tr = (-sdd + np.sqrt(max(disc, 0.0))) / ddsq
+        tau_max = min(t1 - t0, tau_tr)
+        if curv > 0.0 and -slope / curv < tau_max:
+            s = s + (-slope / curv) * dd
+            break
+        if not np.isfinite(tau_max):
+            break
+        s = s + tau_max * dd
+        if tau_tr <= t1 - t0:
+            break
+        # the variables that reached their bound sit exactly on it
+        hit = free & (tb <= t1)
+        s = np.where(hit & (d > 0), xu, np.where(hit & (d < 0), xl, s))
+        t0 = t1
+    s = np.clip(s, xl, xu)
+    nrm = float(np.linalg.norm(s))
+    if nrm > c["delta"]:
+        s = s * (c["delta"] / nrm)
+    return s * (1.0 - 1e-9)
+
+
 def run(chk, rng, replay=None):
     ok, info = proof_stage(chk, MODULES)
     cases, out, ans, crashed = run_calls(chk, rng, replay, 2500, 100000)
-    fails = [(c, s, a[5:]) for (c, s), a in zip(out, ans) if a.startswith("fail") and a[5:] in OWN]
-    n_cauchy = n_strict = 0
+    fails = [(c, s, ",".join(w for w in a[5:].split(",") if w in OWN), False) for (c, s), a in zip(out, ans)
+             if a.startswith("fail") and any(w in OWN for w in a[5:].split(","))]
+    n_cauchy = n_strict = n_path = 0
     worst_gap = 0.0
+    worst_path = 1.0
     for c, s in out:
         if c["kind"] == "tangential":
-            ref = cauchy_reference(c)
-            qs, qr = q_exact(c, s), q_exact(c, ref)
             n_cauchy += 1
+            qs = q_exact(c, s)
+            tiny = tiny_gradient(c)
+            # (a) every model: at least the decrease of the Cauchy step along the projected gradient
+            ref = cauchy_ray_reference(c)
+            qr = q_exact(c, ref)
             sabs = np.abs(ref) + np.abs(s)
             tol = Fr(1e3 * EPS * c["n"] * (float(np.abs(c["g"]) @ sabs) + float(sabs @ np.abs(c["H"]) @ sabs)) + 1e-300)
-            if qs > qr + tol:
-                fails.append((c, s, f"the bound-constrained tangential step decreases the model less than the projected-gradient Cauchy step ({float(qs)!r} > {float(qr)!r})"))
+            if qs > qr * (1 - Fr(1, 10 ** 6)) + tol:
+                fails.append((c, s, f"cauchy: the bound-constrained tangential step decreases the model less than the Cauchy step along the projected gradient ({float(qs)!r} > {float(qr)!r})", tiny))
+            elif c.get("convex"):
+                # (b) convex models: a fixed fraction of the decrease at the first local minimiser along the projected-gradient PATH
+                n_path += 1
+                ref = cauchy_reference(c)
+                qp = q_exact(c, ref)
+                if qp < 0:
+                    worst_path = min(worst_path, float(qs / qp))
+                sabs = np.abs(ref) + np.abs(s)
+                tol = Fr(1e3 * EPS * c["n"] * (float(np.abs(c["g"]) @ sabs) + float(sabs @ np.abs(c["H"]) @ sabs)) + 1e-300)
+                if qs > Fr(PATH_FRACTION) * qp + tol:
+                    fails.append((c, s, f"cauchy: convex model, the tangential step achieves less than {PATH_FRACTION} of the decrease at the Cauchy point of the projected-gradient path ({float(qs)!r} vs {float(qp)!r})", tiny))
             if qr != 0:
                 worst_gap = max(worst_gap, float((qs - qr) / abs(qr)))
         if c["kind"] == "cauchy":
@@ -80,19 +154,24 @@ def run(chk, rng, replay=None):
                     # steps so short that the increase underflows are not counted
                     scale = float(np.max(np.abs(g))) * min(c["delta"], float(np.max(np.where(np.isfinite(xu - xl), xu - xl, c["delta"]))))
                     if scale > 1e-280:
-                        fails.append((c, s, "the Cauchy geometry step does not increase |q| although a feasible first-order improving direction exists"))
+                        fails.append((c, s, "the Cauchy geometry step does not increase |q| although a feasible first-order improving direction exists", False))
     chk.coverage.update({
         "evaluations": len(cases), "distinct_nontrivial": sum(1 for c, s in out if np.any(s)),
         "rule": "same random calls of the five solvers as C15 (n 1..6, 12 decades, all listed degeneracies). Checked exactly on the returned step: tangential steps do not increase g.s + s'Hs/2; normal steps do not increase |max(A s - b,0)|^2 + |A_e s - b_e|^2; geometry steps do not decrease |q|; plus, against exact reference steps, Cauchy decrease of the bound-constrained tangential step and strict increase of the Cauchy geometry step when an improving feasible direction exists. Allowance 1e3 eps n x (size of the terms).",
         "samples": [subgen.case_json(out[-1][0])] if out else [],
-        "degeneracies_hit": stats(out), "cauchy_decrease_comparisons": n_cauchy, "strict_increase_cases": n_strict,
+        "degeneracies_hit": stats(out), "cauchy_decrease_comparisons": n_cauchy, "path_cauchy_comparisons_convex": n_path, "least_fraction_of_path_cauchy_decrease": worst_path, "strict_increase_cases": n_strict,
         "predicate_failures": len(fails),
     })
     chk.assumptions += ["kernel theorems are exact-arithmetic; the loops of the solvers are covered by the sampled calls only",
                         "the projected-gradient Cauchy reference is computed by the harness (exact rational model values, step shortened by 1e-9 to stay feasible)"]
-    for c, s, what in fails[:5]:
+    reported = 0
+    for c, s, what, tiny in fails:
+        if reported >= 5:
+            break
+        before = len(chk.violations)
         chk.violation({"property": "C16", "kind": "spec-fails-on-implementation", "case": subgen.case_json(c), "step": [float(v) for v in s], "failure": what,
                        "explain": "call the solver named in case['kind'] with these arguments (harness/subgen.py call); the returned step is worse than not moving / than the reference step in the named sense",
-                       "signature": {"failure": what.split(" ")[0], "solver": c["kind"]}})
+                       "signature": {"failure": what.split(" ")[0].rstrip(":"), "solver": c["kind"], "tiny_gradient": bool(tiny), "zero_step": bool(not np.any(s))}})
+        reported += len(chk.violations) - before
     if not fails and not ok:
         chk.violation({"property": "C16", "kind": "proof-or-correspondence-broken", "broken": info.get("problems")}, no_input=True)
